@@ -9,6 +9,7 @@ import (
 	"sort"
 	"strings"
 	"testing"
+	"time"
 
 	"github.com/lugu/qiloop/meta/idl"
 	"github.com/lugu/qiloop/type/object"
@@ -20,7 +21,10 @@ import (
 
 const prop = "C18"
 
-func TestMain(m *testing.M) { vt.Main(m) }
+func TestMain(m *testing.M) {
+	vt.Watchdog = 30 * time.Second
+	vt.Main(m)
+}
 
 // Method, Signal, Prop, Itf and Case describe a package of meta-objects by
 // signature strings only (struct definitions are embedded in the signatures,
